@@ -52,7 +52,7 @@ SIGMA_STRUCT = ["{", "}", '"', "a"]  # delimiter structure of middling length (n
 
 
 def shards(tier):
-    return [("harvest", s) for s in seq_shards(spaces.SIGMA_VAL, 4 if tier == "quick" else 5)] + [("struct", s) for s in seq_shards(SIGMA_STRUCT, 7 if tier == "quick" else 10, min_len=5 if tier == "quick" else 6, prefix_len=2)] + [("specials", 0), ("ints", 0), ("leak", 0), ("casekeys", 0)]
+    return [("construction", 0)] + [("harvest", s) for s in seq_shards(spaces.SIGMA_VAL, 4 if tier == "quick" else 5)] + [("struct", s) for s in seq_shards(SIGMA_STRUCT, 7 if tier == "quick" else 10, min_len=5 if tier == "quick" else 6, prefix_len=2)] + [("specials", 0), ("ints", 0), ("leak", 0), ("casekeys", 0)]
 
 
 def ref_strip(v):
@@ -296,9 +296,42 @@ def check_add(value, acc):
                             )
 
 
+ORDER_CONFIGS = [("remove", None, None, None)] + [("add", d, r, i) for d in ("{", '"') for r in (True, False) for i in (True, False)]
+ORDER_PROBES = ["{a}", '"a"', "a", "1990", "{1990}", '"', "{a} # {b}", "{{a}}", "a\\", 7, " 7"]
+
+
+def order_behaviour(cfg):
+    kind, d, r, i = cfg
+    m = RemoveEnclosingMiddleware(allow_inplace_modification=False) if kind == "remove" else AddEnclosingMiddleware(reuse_previous_enclosing=r, enclose_integers=i, default_enclosing=d, allow_inplace_modification=False)
+    out = []
+    for v in ORDER_PROBES:
+        for meta in (None, "{", '"', "no-enclosing"):
+            e = Entry("article", "k", [Field("year", v), Field("title", v)])
+            s_ = String("s", v)
+            if meta is not None:
+                e.parser_metadata["removed_enclosing"] = {"year": meta, "title": meta}
+                s_.parser_metadata["removed_enclosing"] = meta
+            try:
+                lib = m.transform(Library([e, s_]))
+                out.append([repr(f.value) for f in lib.blocks[0].fields] + [repr(lib.blocks[1].value), repr(sorted(lib.blocks[0].parser_metadata.items(), key=repr))])
+            except Exception as ex:  # (an int handed to the remover: outside the property; the same every time all the same)
+                out.append(["raised", type(ex).__name__])
+    return out
+
+def check_construction_order(acc):
+    """mc/order.py: every ordered pair of configurations, against each configuration first in a fresh interpreter."""
+    import sys
+
+    from .. import order
+
+    order.run(sys.modules[__name__], acc, group=lambda cfg: cfg[0])
+
+
 def run_shard(shard, tier, acc):
     kind = shard[0]
     seen = set()
+    if kind == "construction":
+        return check_construction_order(acc)
     if kind == "harvest":
         for toks in seq_iter(spaces.SIGMA_VAL, shard[1]):
             x = "".join(toks)
@@ -382,6 +415,8 @@ def run_shard(shard, tier, acc):
 
 
 def replay(case, acc):
+    if "construction_order" in case:
+        return check_construction_order(acc)
     if "leak" in case:
         return run_shard(("leak", 0), "quick", acc)
     if "case_keys" in case:
